@@ -9,7 +9,12 @@ for d in sorted(glob.glob(os.path.join(os.path.dirname(os.path.dirname(os.path.a
         continue
     caught = []
     missed = []
-    for k, v in sorted(m.get("checks", {}).items()):
+    # the closing replay against the final checks on the final /repo HEAD (lib/seed_replay_all.py) is what counts; the checks
+    # recorded when the change was filed only add which neighbouring checks were tried and do not see it
+    final = (m.get("final_replay") or {}).get("results") or {}
+    merged = dict(m.get("checks", {}))
+    merged.update({k: v for k, v in final.items() if isinstance(v, dict)})
+    for k, v in sorted(merged.items()):
         if v.get("caught"):
             caught.append(k + (" (broken obligation / divergence only: no-failing-input-found)" if v.get("no_failing_input_found") else ""))
         else:
